@@ -24,6 +24,22 @@
      reference for the result and bind it to a name (`Fresh`); copies are
      shallow (cells are copied, so nested containers stay shared);
    * Alias(n1, n2): `n2 = n1`;
+   * reads: `t = n[0]`, `t = n[k]`, `t = n->m` bind a name to the CELL a
+     container holds (an int, or - a container holding a container - the very
+     reference: an alias reached through a container), `t = n[k, d]` is the
+     read with a default: the cell when the key is there, the default when it
+     is not, and the container is the same afterwards (`Get`, `GetDefault`);
+   * the mutators take their index from both ends (0 and -1), the element
+     assignment also in its compound form on a missing key (`n[k, 0] += y`);
+     a method found on the prototype chain assigns a member of its RECEIVER
+     (`n->f(y)` with `f = fn(self, v) do self->z = v end` one step up the
+     chain: `self` is one more route to the container n denotes);
+   * a non-mutating operation outside the range its documentation covers
+     (`substitute(n, length, x)`, `substitute(n, -1, x)`) has an OPAQUE result
+     (kind "any"): the statement does not say what it contains, only that it
+     is a new value, so the replay compares such a name only with its own
+     previous reading (a later change of the input must not show in it; a
+     change of a container NESTED in the input may: copies are shallow);
    * Lit(t): a list or string literal inside a function evaluated once more:
      a fresh value equal to what the program text says.  (The statement does
      not list strings among the values shared by reference, so the model never
@@ -38,10 +54,17 @@
    non-mutating operation returned can be told apart from an alias of its
    input only by mutating one of the two afterwards.
 
+   A list can be the key of a map (`put(m, l, 1)`: kind "rmap", the map HOLDS
+   the list, as "rset" does for a set member): a later change of the list
+   shows in the map.  A parameter's default expression is evaluated at every
+   call that needs it (`def lit_def(x = [1]) x`): a fresh value, like a
+   literal in a function body.
+
    Mirrors: functions.py FuncAppend/FuncInsertAt/FuncDeleteAt/FuncRemove/
    FuncPut/FuncAdd/FuncSub/FuncMul/FuncSublist/FuncSorted/FuncZip/FuncList/
    FuncSet/FuncMap/FuncObject, nodes.py NodeDerefAssign/NodeDerefSlice/
-   NodeListComprehension/NodeSpread/NodeAssign/NodeLiteral, modules/list.ckl
+   NodeListComprehension/NodeSpread/NodeAssign/NodeLiteral/NodeDeref (also with
+   a default)/NodeDerefInvoke (self), FuncLambda (default values), modules/list.ckl
    append_all, reverse, unique, flatten, filter, modules/core.ckl chunks,
    substitute.                                                             *)
 EXTENDS HeapOps, TLC, Json, IOUtils
@@ -70,7 +93,7 @@ MaxOf(S)    == CHOOSE x \in S : \A y \in S : x >= y
 Last(s)     == s[Len(s)]
 
 \* storing names[m] into the container of n must not create a cycle
-NoCycle(n, m) == /\ m # n /\ IsRef(names[m]) /\ ~Holds(m, "str")
+NoCycle(n, m) == /\ m # n /\ IsRef(names[m]) /\ ~Holds(m, "str") /\ ~Holds(m, "any")
                  /\ names[n].v \notin Reach(heap, {names[m].v})
 
 -----------------------------------------------------------------------------
@@ -91,7 +114,8 @@ Proj(h, nm) ==
 \* the depth bound are expanded once more, by these operations only.
 IsProbe(o) == \/ o.op \in {"append", "put"}
               \/ o.op = "set_member" /\ o.x = 1
-              \/ o.op = "set_elem" /\ (heap[names[o.n].v].k = "str" \/ Len(heap[names[o.n].v].items) = MaxLen)
+              \/ o.op = "set_elem" /\ o.x # 0 - 1
+                 /\ (heap[names[o.n].v].k = "str" \/ Len(heap[names[o.n].v].items) = MaxLen)
 
 Finish(h2, nm2, o) ==
   /\ d < MaxDepth \/ (d = MaxDepth /\ IsProbe(o))
@@ -139,13 +163,17 @@ DoAppendAll(n, m) ==                         \* append_all(n, m); m may alias n
         /\ Cardinality(Elems(C(n)) \cup Elems(C(m))) <= MaxLen
         /\ Mutate(n, MkSet(Elems(C(n)) \cup Elems(C(m))), OpRec("append_all", n, m, "", 0, 0))
 
-DoInsertAt(n) ==                             \* insert_at(n, 0, x)
-  /\ Holds(n, "list") /\ Size(n) < MaxLen
-  /\ Mutate(n, MkList(<<I(NextVal(n))>> \o C(n).items), OpRec("insert_at", n, "", "", NextVal(n), 0))
+\* the index of a list operation is taken from both ends: 0 (the first place)
+\* and -1 (documented: counted from the end)
+DoInsertAt(n, end) ==                        \* insert_at(n, 0, x) | insert_at(n, -1, x)
+  /\ Holds(n, "list") /\ Size(n) < MaxLen /\ (end => Size(n) > 0)
+  /\ Mutate(n, MkList(IF end THEN Append(C(n).items, I(NextVal(n))) ELSE <<I(NextVal(n))>> \o C(n).items),
+            OpRec("insert_at", n, "", "", NextVal(n), IF end THEN 0 - 1 ELSE 0))
 
-DoDeleteAt(n) ==                             \* delete_at(n, 0)
-  /\ Holds(n, "list") /\ Size(n) > 0
-  /\ Mutate(n, MkList(Tail(C(n).items)), OpRec("delete_at", n, "", "", 0, 0))
+DoDeleteAt(n, end) ==                        \* delete_at(n, 0) | delete_at(n, -1)
+  /\ Holds(n, "list") /\ Size(n) > (IF end THEN 1 ELSE 0)
+  /\ Mutate(n, MkList(IF end THEN SubSeq(C(n).items, 1, Size(n) - 1) ELSE Tail(C(n).items)),
+            OpRec("delete_at", n, "", "", IF end THEN 0 - 1 ELSE 0, 0))
 
 DoRemove(n) ==                               \* remove(n, x)
   \/ /\ Holds(n, "list") /\ Size(n) > 0 /\ ~IsRef(Last(C(n).items))
@@ -164,6 +192,10 @@ DoPut(n) ==                                  \* put(n, x, y)
   /\ Holds(n, "map") /\ Size(n) < MaxLen
   /\ Mutate(n, MapPut(C(n), NextVal(n), I(NextVal(n))), OpRec("put", n, "", "", NextVal(n), NextVal(n)))
 
+DoPutRefKey(n, m) ==                         \* put(n, m, 1) on an empty map: the map HOLDS m's list as its key
+  /\ Holds(n, "map") /\ Size(n) = 0 /\ Holds(m, "list") /\ NoCycle(n, m)
+  /\ Mutate(n, Mk("rmap", << >>, <<names[m], I(1)>>), OpRec("put_key_ref", n, m, "", 0, 1))
+
 DoPutRef(n, m) ==                            \* put(n, 1, m)
   /\ Holds(n, "map") /\ NoCycle(n, m) /\ (HasKey(C(n), 1) \/ Size(n) < MaxLen)
   /\ Mutate(n, MapPut(C(n), 1, names[m]), OpRec("put_ref", n, m, "", 1, 0))
@@ -172,6 +204,9 @@ DoSetElem(n) ==                              \* n[x] = y
   \/ /\ Holds(n, "list") /\ Size(n) > 0
      /\ Mutate(n, MkList([C(n).items EXCEPT ![1] = I(NextVal(n))]),
                OpRec("set_elem", n, "", "", 0, NextVal(n)))
+  \/ /\ Holds(n, "list") /\ Size(n) > 1     \* n[-1] = y
+     /\ Mutate(n, MkList([C(n).items EXCEPT ![Size(n)] = I(NextVal(n))]),
+               OpRec("set_elem", n, "", "", 0 - 1, NextVal(n)))
   \/ /\ Holds(n, "map") /\ Size(n) > 0
      /\ Mutate(n, MapPut(C(n), C(n).keys[1], I(NextVal(n))),
                OpRec("set_elem", n, "", "", C(n).keys[1], NextVal(n)))
@@ -183,6 +218,14 @@ DoSetElemRef(n, m) ==                        \* n[-1] = m
   /\ Holds(n, "list") /\ Size(n) > 0 /\ NoCycle(n, m)
   /\ Mutate(n, MkList([C(n).items EXCEPT ![Size(n)] = names[m]]), OpRec("set_elem_ref", n, m, "", -1, 0))
 
+\* the compound element assignment with a default on a key that is not there:
+\* `n[9, 0] += y` is an element assignment (the entry 9 => 0 + y appears)
+AbsentKey == 9
+DoAddAssignElem(n) ==
+  /\ Holds(n, "map") /\ Size(n) < MaxLen /\ ~HasKey(C(n), AbsentKey)
+  /\ Mutate(n, MapPut(C(n), AbsentKey, I(NextVal(n))),
+            OpRec("add_assign_elem", n, "", "", AbsentKey, NextVal(n)))
+
 DoSetMember(n, mem) ==                       \* n->mem = y   (member codes 1 m, 2 n, 3 z)
   /\ Holds(n, "obj") /\ (HasKey(C(n), mem) \/ Size(n) < MaxLen)
   /\ Mutate(n, ObjSet(C(n), mem, I(NextVal(n))), OpRec("set_member", n, "", "", mem, NextVal(n)))
@@ -190,6 +233,19 @@ DoSetMember(n, mem) ==                       \* n->mem = y   (member codes 1 m, 
 DoSetMemberRef(n, m) ==                      \* n->n = m
   /\ Holds(n, "obj") /\ NoCycle(n, m) /\ (HasKey(C(n), 2) \/ Size(n) < MaxLen)
   /\ Mutate(n, ObjSet(C(n), 2, names[m]), OpRec("set_member_ref", n, m, "", 2, 0))
+
+\* A method: member code 5 (`f`) holds the function `fn(self, v) do self->z = v; NULL end`
+\* (cell MethodCell).  `n->f(y)` looks f up along the prototype chain (one step
+\* here) and runs it with self = the RECEIVER: the member z of the container n
+\* denotes is assigned, the object in which f was found stays as it is.
+MethodCell == I(77)
+HasMethod(n) ==
+  \/ HasKey(C(n), 5)
+  \/ /\ HasKey(C(n), 4) /\ IsRef(C(n).items[KeyIdx(C(n), 4)])
+     /\ LET p == heap[C(n).items[KeyIdx(C(n), 4)].v] IN p.k = "obj" /\ HasKey(p, 5)
+DoMethodSetMember(n) ==
+  /\ Holds(n, "obj") /\ HasMethod(n) /\ (HasKey(C(n), 3) \/ Size(n) < MaxLen)
+  /\ Mutate(n, ObjSet(C(n), 3, I(NextVal(n))), OpRec("method_set_member", n, "", "", 3, NextVal(n)))
 
 -----------------------------------------------------------------------------
 (* The non-mutating operations (result bound to Tgt(n), except `+=`). *)
@@ -309,26 +365,64 @@ DoFlatten(n) ==                              \* flatten(n): one level; the inner
 DoFilterAll(n) ==                            \* filter(n, fn(x) TRUE)
   /\ Holds(n, "list") /\ Pure(n, MkList(C(n).items), "filter", 0)
 
-DoSubstitute(n) ==                           \* substitute(n, 0, x)
-  /\ Holds(n, "list") /\ Size(n) > 0
-  /\ Pure(n, MkList(<<I(NextVal(n))>> \o Tail(C(n).items)), "substitute", NextVal(n))
+\* substitute(n, idx, x): idx inside the list gives the documented list; idx = length or -1 is outside what the documentation
+\* covers: the content is left open (Opaque), the result is a new value all the same
+\* (a copy is shallow: whatever the result contains, it may share the nested containers of its
+\* input - the model keeps their references as the items of the opaque container -, never the
+\* input itself)
+Opaque(n) == Mk("any", << >>, SelectSeq(C(n).items, IsRef))
+SubstOp(n, idx, c) == Fresh(Tgt(n), c, OpRec("substitute", n, "", Tgt(n), NextVal(n), idx))
+DoSubstitute(n, v) ==
+  /\ Holds(n, "list")
+  /\ \/ /\ v = 0 /\ Size(n) > 0
+        /\ SubstOp(n, 0, MkList(<<I(NextVal(n))>> \o Tail(C(n).items)))
+     \/ /\ v = 1 /\ SubstOp(n, Size(n), Opaque(n))
+     \/ /\ v = 2 /\ SubstOp(n, 0 - 1, Opaque(n))
+
+(* Reads.  A read binds a name to the cell the container holds: for a nested
+   container that is the reference itself (the container is one more holder
+   of the value, and the new name an alias of it).  The heap stays as it is -
+   also for the read with a default on a key that is not there. *)
+Read1(n, cell, op, x, y) ==
+  /\ cell # MethodCell
+  /\ Finish(heap, [names EXCEPT ![Tgt(n)] = cell], OpRec(op, n, "", Tgt(n), x, y))
+
+DoGet(n) ==                                  \* t = n[0] | t = n[-1] | t = n[k] | t = n->mem
+  \/ /\ Holds(n, "list") /\ Size(n) > 0 /\ Read1(n, C(n).items[1], "get", 0, 0)
+  \/ /\ Holds(n, "list") /\ Size(n) > 1 /\ Read1(n, C(n).items[Size(n)], "get", 0 - 1, 0)
+  \/ /\ Holds(n, "map") /\ Size(n) > 0 /\ Read1(n, Last(C(n).items), "get", Last(C(n).keys), 0)
+  \/ /\ Holds(n, "obj") /\ Size(n) > 0 /\ Last(C(n).keys) # 4
+     /\ Read1(n, Last(C(n).items), "get_member", Last(C(n).keys), 0)
+
+DoGetDefault(n, present) ==                  \* t = n[k, 7]: k there -> the cell; k not there -> 7
+  \/ /\ Holds(n, "map") /\ present /\ Size(n) > 0
+     /\ Read1(n, Last(C(n).items), "get_default", Last(C(n).keys), 7)
+  \/ /\ Holds(n, "map") /\ ~present /\ ~HasKey(C(n), AbsentKey)
+     /\ Read1(n, I(7), "get_default", AbsentKey, 7)
+  \/ /\ Holds(n, "obj") /\ ~present /\ ~HasKey(C(n), 3) /\ ~HasKey(C(n), 4)
+     /\ Read1(n, I(7), "get_member_default", 3, 7)
 
 \* a literal evaluated again (inside a function called once more) is a fresh
 \* value equal to what is written: `def lit_list() [1]`, `def lit_str() 'ab'`
 LitList == MkList(<<I(1)>>)
 LitStr  == Mk("str", << >>, <<I(1), I(2)>>)
-DoLit(t, str) ==
+\* `def lit_def(x = [1]) x`: the default expression of a parameter is evaluated at every call
+\* that does not pass the argument ("lit_default")
+DoLit(t, kind) ==
   /\ t \in Names
-  /\ Fresh(t, IF str THEN LitStr ELSE LitList, OpRec(IF str THEN "lit_str" ELSE "lit_list", "", "", t, 0, 0))
+  /\ Fresh(t, IF kind = "lit_str" THEN LitStr ELSE LitList, OpRec(kind, "", "", t, 0, 0))
 
 DoAlias(n1, n2) ==                           \* n2 = n1
-  /\ n1 # n2 /\ names[n1] # names[n2] /\ ~Holds(n1, "str")
+  /\ n1 # n2 /\ names[n1] # names[n2] /\ ~Holds(n1, "str") /\ ~Holds(n1, "any")
   /\ Finish(heap, [names EXCEPT ![n2] = names[n1]], OpRec("alias", n1, "", n2, 0, 0))
 
 Mutator(n) ==
-  \/ DoAppend(n) \/ DoInsertAt(n) \/ DoDeleteAt(n) \/ DoRemove(n) \/ DoPut(n)
+  \/ DoAppend(n) \/ DoRemove(n) \/ DoPut(n)
+  \/ \E end \in BOOLEAN : DoInsertAt(n, end) \/ DoDeleteAt(n, end)
   \/ DoSetElem(n) \/ DoSetMember(n, 1) \/ DoSetMember(n, 3)
+  \/ DoAddAssignElem(n) \/ DoMethodSetMember(n)
   \/ \E m \in Names : \/ DoAppendRef(n, m) \/ DoAppendRefSet(n, m) \/ DoAppendAll(n, m) \/ DoPutRef(n, m)
+                      \/ DoPutRefKey(n, m)
                       \/ DoSetElemRef(n, m) \/ DoSetMemberRef(n, m)
 
 NonMutating(n) ==
@@ -337,8 +431,9 @@ NonMutating(n) ==
   \/ DoZip(n) \/ DoToList(n) \/ DoToSet(n) \/ DoToMap(n) \/ DoToObj(n)
   \/ DoCompr(n) \/ DoReverse(n) \/ DoSpread(n)
   \/ DoChunks(n, TRUE) \/ DoChunks(n, FALSE) \/ DoUnique(n) \/ DoFlatten(n)
-  \/ DoFilterAll(n) \/ DoSubstitute(n)
-  \/ DoLit(n, TRUE) \/ DoLit(n, FALSE)
+  \/ DoFilterAll(n) \/ \E v \in 0..2 : DoSubstitute(n, v)
+  \/ DoGet(n) \/ DoGetDefault(n, TRUE) \/ DoGetDefault(n, FALSE)
+  \/ DoLit(n, "lit_str") \/ DoLit(n, "lit_list") \/ DoLit(n, "lit_default")
 
 Next == \E n \in Names : \/ Mutator(n) \/ NonMutating(n)
                          \/ \E n2 \in Names : DoAlias(n, n2)
@@ -371,7 +466,8 @@ InitSeq == <<
   [h |-> H(<<L(<<R(2), R(2)>>), L(<<I(1)>>)>>),    n |-> NM(R(1), R(2), Null, Null)],
   \* an object and its prototype (member code 4 is `_proto_`): a member assignment through the object
   \* writes the object's own table, never the prototype's
-  [h |-> H(<<Mk("obj", <<4>>, <<R(2)>>), Mk("obj", <<1, 3>>, <<I(1), I(2)>>)>>),
+  \* (the prototype also has the method f, member code 5: `a->f(y)` assigns a member of the INSTANCE)
+  [h |-> H(<<Mk("obj", <<4>>, <<R(2)>>), Mk("obj", <<1, 3, 5>>, <<I(1), I(2), MethodCell>>)>>),
                                                    n |-> NM(R(1), R(2), R(1), R(2))],
   \* an empty set and a list: the set will hold the list itself
   [h |-> H(<<MkSet({}), L(<<I(1)>>)>>),            n |-> NM(R(1), R(2), R(2), R(1))],
@@ -393,15 +489,21 @@ Spec == Init /\ [][Next]_vars
 -----------------------------------------------------------------------------
 (* Properties. *)
 
-Kinds == {"list", "set", "rset", "map", "obj", "str", "free"}     \* "rset": a set whose only member is a list (append(set, list))
+Kinds == {"list", "set", "rset", "map", "rmap", "obj", "str", "any", "free"}
+\* "rset": a set whose only member is a list (append(set, list)); "rmap": a map whose only key is a list
+\* (put(map, list, 1)): items = <<the key, the value>>; "any": an opaque result (content left open)
 
 TypeOK ==
   /\ DOMAIN names = Names
   /\ \A r \in Ref :
        LET c == heap[r] IN
        /\ c.k \in Kinds
-       /\ c.k \in {"list", "set", "rset", "str", "free"} => c.keys = << >>
+       /\ c.k \in {"list", "set", "rset", "rmap", "str", "any", "free"} => c.keys = << >>
        /\ c.k = "rset" => Len(c.items) = 1 /\ IsRef(c.items[1])
+       /\ c.k = "rmap" => Len(c.items) = 2 /\ IsRef(c.items[1]) /\ ~IsRef(c.items[2])
+       /\ c.k = "any" => (\A i \in DOMAIN c.items : IsRef(c.items[i]))
+                         /\ Cardinality({n \in Names : names[n] = R(r)}) = 1
+                         /\ \A q \in Ref : r \notin RefsIn(heap[q])      \* held by one name, never stored
        /\ c.k = "str" => AllInts(c.items)
        /\ c.k \in {"map", "obj"} => Len(c.keys) = Len(c.items)
        /\ c.k = "free" => c.items = << >>
@@ -432,13 +534,19 @@ MutatorTouchesOnlyTarget ==
           /\ ch \subseteq NameRoots(names)
           /\ OnlyChanged(heap, heap', ch \cup {r \in Ref : heap'[r] = Free})]_vars
 
-\* the result of a non-mutating operation is a reference that was free before
-\* the step and that no older container holds after it
+\* a name is rebound either to a value that existed (an alias, or a read of a
+\* cell some live container holds) or to the result of a non-mutating
+\* operation: a reference that was free before the step and that no older
+\* container holds after it
 FreshResultsIndependent ==
   [][\A n \in Names :
        (names'[n] # names[n] /\ IsRef(names'[n]) /\ names'[n] \notin {names[x] : x \in Names})
        => LET f == names'[n].v
-          IN /\ heap[f] = Free
-             /\ \A r \in Ref : (heap[r].k # "free" /\ heap'[r].k # "free") => f \notin RefsIn(heap'[r])]_vars
+          IN \/ f \in Live(heap, names)
+             \/ /\ heap[f] = Free
+                /\ \A r \in Ref : (heap[r].k # "free" /\ heap'[r].k # "free") => f \notin RefsIn(heap'[r])]_vars
+
+\* (a read - also the read with a default - rebinds a name: PureLeavesHeap says that it leaves
+\* every container as it is)
 
 =============================================================================
